@@ -9,19 +9,19 @@ NOTE = ("Trusted base: libsodium via nacl.bindings and hashlib (shared by oracle
         "reference models in tapesim/oracle.py and tapesim/props/*.py. Seeded search samples "
         "schedules and fault sequences: a clean batch is evidence, not proof.")
 CLAIMED = {
- 'C16': dict(section='3.1', technique='deterministic simulation: seeded validator-clock fault schedules (skew, drift, fractional, step between reads, freeze) over time-lock validations, oracle on recorded clock reads',
+ 'C16': dict(section='3.1', technique='deterministic simulation: seeded validator-clock fault schedules (skew, drift, fractional, step between reads, freeze, failing clock read) over time-lock validations in every nesting context, oracle on recorded clock reads; a slice of every batch is re-run in an interpreter started with -O -W error',
    text='Seeded search over simulated validator clocks and boundary-stratified validations of the four raw time instructions and the three time-lock builders; every clock read is a recorded event and the oracle judges each verdict from the recorded reads. Exploration is the right level: the property depends on the clock relation at each read, which only a controlled clock can place on every boundary.'),
- 'C19': dict(section='3.6', technique='deterministic simulation: seeded histories of registry / run / compile calls in one forked process per history, with raising and re-entrant callbacks injected mid-run; set/dict reference model compared through behavioural probes after every call',
+ 'C19': dict(section='3.6', technique='deterministic simulation: seeded histories of registry / run / compile calls in one forked process per history, with raising and re-entrant callbacks injected mid-run; set/dict reference model compared through behavioural probes after every call; a slice of every batch is re-run in an interpreter started with -O -W error',
    text='Seeded search over call histories (bounded-exhaustive prefix of length <= 3 over a 14-op core alphabet, then random to 30/60 ops) on process-global registries, one OS process per history; callbacks fail or re-enter the registry API while a run is in flight. After every call a probe battery (which plugins/contracts/aliases a fresh run or compile actually uses; a registry-independent battery of compiles and runs) is compared with a set/dict model. Exploration is the right level: the property quantifies over histories, which the simulator generates, shrinks and replays.'),
- 'C15': dict(section='3.3', technique='deterministic simulation: seeded swap histories (sender, receiver, outsider, ledger) with creator/validator clock faults and single-bit witness corruption; item-level and who-does-what reference models on recorded clock reads',
+ 'C15': dict(section='3.3', technique='deterministic simulation: seeded swap histories (sender, receiver, outsider, ledger) with creator/validator clock faults (incl. a failing clock read), witness corruption (single bits, malleated and crafted witnesses, changed transactions), locks behind script-hash / taproot / Merklized / graftroot wrappers; item-level and who-does-what reference models on recorded clock reads; a slice of every batch is re-run in an interpreter started with -O -W error',
    text='Seeded search over histories in which HTLC/PTLC outputs are created on the sender clock and then attacked by receiver, sender and an outsider (who learns preimages only from published claims) on validators whose clocks are skewed, fractional, stepping (also between the two reads of one validation) or frozen, with single-bit corruption of witness items and all 24 witness-kind x lock-kind cross pairings. Two independent oracles judge every attempt. Exploration is the right level: deadlines are relations between two clocks the tests never control.'),
- 'C14': dict(section='3.2', technique='deterministic simulation: seeded lease histories (root, foreign root, delegate chains 1-6, attacker) with validator clock faults (skew, fractional, step between reads, freeze) and transport tampering (bit flips per certificate field, splice, drop, dup, reorder); item-level and who-level reference models on recorded clock reads',
+ 'C14': dict(section='3.2', technique='deterministic simulation: seeded lease histories (root, foreign root, delegate chains 1-6, attacker) with validator clock faults (skew, fractional, step between reads, freeze) and transport tampering (bit flips per certificate field, splice, drop, dup, reorder, crafted markers and witnesses, re-cut certificates, changed transactions), chains of up to 120 links, locks behind wrappers; item-level and who-level reference models on recorded clock reads; a slice of every batch is re-run in an interpreter started with -O -W error',
    text='Certificates are leases: seeded search over issuance chains and spend attempts validated on simulated clocks that are skewed, fractional, frozen or step between the two timestamp reads of a link, with single-bit corruption of every certificate field and of the final signature, cross-root splices, dropped/duplicated/reordered links, non-delegable mid-chain links, wrong signers, cross-lock witnesses and replays after expiry; every certificate is round-tripped. Exploration is the right level: window membership is a relation between t and a clock the tests never control.'),
- 'C20': dict(section='3.7', technique='deterministic simulation: mixed-version network of validator processes (fork per node), seeded activation instants, crash-restarts, invalid activations and delayed / duplicated / reordered transaction delivery; closed-form NOP oracle, exact fork-transaction oracle and pairwise compatibility check over the delivery history',
+ 'C20': dict(section='3.7', technique='deterministic simulation: mixed-version network of validator processes (fork per node), seeded activation instants, crash-restarts, invalid activations and delayed / duplicated / reordered transaction delivery; closed-form NOP oracle, exact fork-transaction oracle and pairwise compatibility check over the delivery history; a slice of every batch is re-run in an interpreter started with -O -W error',
    text='Each validator is its own OS process forked from the pristine image; activation of 1-3 conforming soft forks is an event in each node history (or never happens, or is attempted with invalid arguments, or is lost by a crash-restart). Closed-form NOP probes, fork transactions and generated programs with the forked code nested to depth 3 are delivered to every node with seeded delay, duplication and reordering, so the same bytes meet a node before and after its activation. Checked at every delivery and over the history: NOP semantics, exact fork-transaction verdicts, accept under S implies accept under every subset of S, one bytecode across spellings and versions, reachability by name and aliases, failed activations change nothing. Exploration is the right level: the property is about version skew across a network, which only the simulator can schedule.'),
- 'C17': dict(section='3.4', technique='deterministic simulation: seeded two-party adapter exchanges (signer, counterparty, man-in-the-middle, validator) over a faulty channel (single-bit corruption of sa/R/T/X/m, drop, duplicate, misroute, splice) with crash-restart of the counterparty; algebraic reference via libsodium and Ed25519 verification as oracles',
+ 'C17': dict(section='3.4', technique='deterministic simulation: seeded two-party adapter exchanges (signer, counterparty, man-in-the-middle, validator) over a faulty channel (single-bit corruption of sa/R/T/X/m, drop, duplicate, misroute, splice) with crash-restart of the counterparty; algebraic reference via libsodium and Ed25519 verification as oracles; a slice of every batch is re-run in an interpreter started with -O -W error',
    text='The exchange a user relies on is simulated: B offers T, A returns an adapter bound to (X, T, message), B verifies it now and decrypts it later, publication reveals t to A. Five protocol variants (two-/three-script tools flows, deprecated single lock, raw PUBLIC and PRIVATE instructions), six tweak-scalar classes, messages 0-512 bytes. The channel corrupts single bits of each of the five check inputs, drops, duplicates, misroutes and splices adapters; B crashes between decrypting and publishing; M publishes the adapter itself, R+T with sa, and decryptions under wrong scalars before t is revealed. Invariants V1-V7 (completeness, detection, soundness proper: a passing check implies a valid signature after decryption, decryption value, extraction, only-t-decrypts, builder composition). Exploration is the right level for the protocol ordering and corruption faults; edge scalars and message sizes enter as swarm knobs.'),
- 'C18': dict(section='3.5', technique='deterministic discrete-event simulation of the n-party AMHL protocol: seeded message delay / drop / duplicate / reorder / single-bit corruption / partitions, party crash-restart and stalls, adversarial claim attempts with every scalar seen so far; algebraic reference (independent point sums mod L) and ledger-history checks incl. bounded liveness after the last fault',
+ 'C18': dict(section='3.5', technique='deterministic discrete-event simulation of the n-party AMHL protocol: seeded message delay / drop / duplicate / reorder / single-bit corruption / partitions, party crash-restart and stalls, adversarial claim attempts with every scalar seen so far; algebraic reference (independent point sums mod L) and ledger-history checks incl. bounded liveness after the last fault; a slice of every batch is re-run in an interpreter started with -O -W error',
    text='1-2 concurrent chains of 2-8 payers are set up by the real setup_amhl / AMHL.setup and executed as a message-passing protocol (views, adapters, acks, ledger publications) by party stubs with retransmission and persistence, under a seeded faulty network and party crashes. Invariants A1-A6: tweak points are prefix sums, honest views and adapters validate, release yields exactly the left prefix sum and a valid signature, a claim is accepted iff its scalar opens that hop (attackers use extracted scalars, sums, differences, other-chain and neighbour shares, adapters as signatures), claims are strictly right-to-left, and the cascade completes within a bounded number of rounds after the last fault. Exploration is the right level: the property quantifies over release orders and histories that only a controlled network and crash schedule can produce.'),
 }
 NA = {
@@ -47,7 +47,7 @@ man = {
  'engines': [{'name': 'tapesim', 'path': 'tapesim/', 'serves_properties': sorted(CLAIMED),
               'kind_free_text': 'deterministic discrete-event simulator with seeded fault injection (own PRNG, plan/replay/minimise), Python, drives real /repo code'}],
  'checks': [], 'not_applicable': [],
- 'notes': 'Exit 3 + HARNESS-ERROR = problem of the machinery (never a verdict). KNOWN_FINDINGS.txt lists recorded genuine defects; findings/ holds their committed replays. ./check --selftest determinism|mutants|seeded prove determinism and sensitivity.',
+ 'notes': 'Exit 3 + HARNESS-ERROR = problem of the machinery (never a verdict). KNOWN_FINDINGS.txt lists recorded genuine defects; findings/ holds their committed replays. ./check --selftest determinism|mutants|seeded|neutral prove determinism, sensitivity (hand-written mutants, 175 independently written breaking changes) and specificity (behaviour-preserving refactorings stay green); tools/auto_mutants.py generates mutants of the anchored functions.',
 }
 for pid in sorted(CLAIMED):
     c = CLAIMED[pid]
